@@ -1665,10 +1665,17 @@ func (h *ResponseHeader) SetCookie(cookie *Cookie) {
 }
 
 // SetCookie sets 'key: value' cookies.
+//
+// ';' separates cookies inside a Cookie header, so every ';' in key and value
+// is replaced with a space, the same way Cookie.SetKey and Cookie.SetValue
+// neutralise it for response cookies. Otherwise a value such as "1; b=2"
+// taken from untrusted input would add a second cookie to the request.
 func (h *RequestHeader) SetCookie(key, value string) {
 	h.collectCookies()
 	h.bufK = initHeaderValueString(h.bufK, key)
+	h.bufK = removeSemicolons(h.bufK)
 	h.bufV = initHeaderValueString(h.bufV, value)
+	h.bufV = removeSemicolons(h.bufV)
 	h.cookies = setArgBytes(h.cookies, h.bufK, h.bufV, argsHasValue)
 }
 
